@@ -1,7 +1,7 @@
 #!/bin/bash
 # For every seeded/<id>: in a scratch worktree of /repo HEAD, the demo must PASS (exit 0) on HEAD and FAIL (exit 1) with the patch applied.
 cd "$(dirname "$0")/.."
-WT=/tmp/seedval
+WT=$(mktemp -d /tmp/seedval.XXXX); rmdir $WT
 git -C /repo worktree remove --force $WT 2>/dev/null
 git -C /repo worktree add --detach $WT HEAD -q || exit 9
 for d in seeded/*/; do
